@@ -1080,6 +1080,12 @@ func (fr *oFrame) eval(e ast.Expr) oval {
 				return oTop{"external " + src(x)}
 			}
 		}
+		if sl := fr.info.Selections[x]; sl != nil && sl.Kind() == types.MethodVal {
+			// a method value: the receiver is evaluated now, the call happens later
+			if f, ok := sl.Obj().(*types.Func); ok {
+				return oBound{f: f, recv: fr.eval(x.X)}
+			}
+		}
 		if s := fr.structRef(x.X); s != nil {
 			if v, ok := s.fields[x.Sel.Name]; ok {
 				return fr.rvalue(v)
@@ -1091,13 +1097,58 @@ func (fr *oFrame) eval(e ast.Expr) oval {
 				return fr.rvalue(fv)
 			}
 		}
+		if p, ok := v.(oPtr); ok && p.s != nil {
+			if fv, ok := p.s.fields[x.Sel.Name]; ok {
+				return fr.rvalue(fv)
+			}
+		}
+		// a field promoted through embedded structs
+		if sl := fr.info.Selections[x]; sl != nil && sl.Kind() == types.FieldVal && len(sl.Index()) > 1 {
+			var cur *oStruct
+			switch b := v.(type) {
+			case *oStruct:
+				cur = b
+			case oPtr:
+				cur = b.s
+			}
+			t := sl.Recv()
+			for _, ix := range sl.Index() {
+				if cur == nil {
+					break
+				}
+				if pt, ok := t.Underlying().(*types.Pointer); ok {
+					t = pt.Elem()
+				}
+				st, ok := t.Underlying().(*types.Struct)
+				if !ok || ix >= st.NumFields() {
+					cur = nil
+					break
+				}
+				fv := cur.fields[st.Field(ix).Name()]
+				t = st.Field(ix).Type()
+				switch b := fv.(type) {
+				case *oStruct:
+					cur = b
+				case oPtr:
+					cur = b.s
+				default:
+					if ix == sl.Index()[len(sl.Index())-1] {
+						return fr.rvalue(fv)
+					}
+					cur = nil
+				}
+			}
+			if cur != nil {
+				return cur.clone()
+			}
+		}
 		if p, ok := v.(oPtr); ok && p.s == nil {
 			if sl := fr.info.Selections[x]; sl != nil && sl.Kind() == types.FieldVal {
 				fr.abort("panic: nil pointer dereference in %s at %s", src(x), fr.it.p.Position(x.Pos()))
 				return oTop{"nil dereference"}
 			}
 		}
-		return oTop{"selector " + src(x)}
+		return oTop{"selector " + src(x) + " of " + showVal(v)}
 	case *ast.StarExpr:
 		if r, ok := fr.eval(x.X).(oRef); ok {
 			return fr.rvalue(r.load())
@@ -1263,7 +1314,7 @@ func (fr *oFrame) eval(e ast.Expr) oval {
 					return oSlice{typ: fr.info.TypeOf(x), arr: &arr, lo: 0, hi: len(arr), capEnd: len(arr)}
 				}
 			}
-			return oTop{"arithmetic " + x.Op.String()}
+			return oTop{"arithmetic " + x.Op.String() + " on " + showVal(lv) + " and " + showVal(fr.eval(x.Y))}
 		}
 	case *ast.CompositeLit:
 		t := fr.info.TypeOf(x)
@@ -1652,6 +1703,9 @@ func (fr *oFrame) call(call *ast.CallExpr) []oval {
 				recv = xv
 			}
 		}
+	}
+	if recv != nil && sig.Recv() != nil {
+		recv = embeddedRecv(recv, sig.Recv().Type())
 	}
 	if fr.it.p.Decl(f) == nil && fr.it.stub == nil {
 		return one(oTop{"call to " + f.FullName() + " (outside the repo)"})
@@ -2162,6 +2216,12 @@ func (it *oInterp) initPackage(tp *types.Package) {
 // oExt is an external package-level variable known only by name (binary.BigEndian …).
 type oExt struct{ name string }
 
+// oBound is a method value: a method with its receiver already evaluated.
+type oBound struct {
+	f    *types.Func
+	recv oval
+}
+
 // oRef is a pointer to a local variable that is not a struct (scalars, slices).
 type oRef struct {
 	cell *oval
@@ -2201,4 +2261,62 @@ func retag(v oval, t types.Type) oval {
 		return sl
 	}
 	return v
+}
+
+// embeddedRecv: a method promoted through embedded structs is called on the embedded value.
+func embeddedRecv(recv oval, want types.Type) oval {
+	wantPtr := false
+	if pt, ok := want.(*types.Pointer); ok {
+		want, wantPtr = pt.Elem(), true
+	}
+	var cur *oStruct
+	switch b := recv.(type) {
+	case *oStruct:
+		cur = b
+	case oPtr:
+		cur = b.s
+	default:
+		return recv
+	}
+	for depth := 0; depth < 4 && cur != nil; depth++ {
+		if cur.typ != nil && types.Identical(cur.typ, want) {
+			if depth == 0 {
+				return recv
+			}
+			if wantPtr {
+				return oPtr{cur}
+			}
+			return cur.clone()
+		}
+		st, ok := cur.typ.Underlying().(*types.Struct)
+		if !ok {
+			return recv
+		}
+		var next *oStruct
+		for i := 0; i < st.NumFields(); i++ {
+			fld := st.Field(i)
+			if !fld.Embedded() {
+				continue
+			}
+			ft := fld.Type()
+			if pt, ok := ft.(*types.Pointer); ok {
+				ft = pt.Elem()
+			}
+			// the embedded field that (transitively) provides the wanted type
+			if types.Identical(ft, want) || depth < 3 {
+				switch b := cur.fields[fld.Name()].(type) {
+				case *oStruct:
+					if types.Identical(ft, want) || next == nil {
+						next = b
+					}
+				case oPtr:
+					if types.Identical(ft, want) || next == nil {
+						next = b.s
+					}
+				}
+			}
+		}
+		cur = next
+	}
+	return recv
 }
